@@ -129,14 +129,13 @@ class IdentityTransform(BaseTransform):
         return copy_array(x, xp=self.xp)
 
     def forward(self, x):
-        return copy_array(x, xp=self.xp), self.xp.zeros(
-            len(x), device=get_device(x)
-        )
+        # Convert first so the device is taken from an array of this namespace
+        x = copy_array(x, xp=self.xp)
+        return x, self.xp.zeros(len(x), device=get_device(x))
 
     def inverse(self, y):
-        return copy_array(y, xp=self.xp), self.xp.zeros(
-            len(y), device=get_device(y)
-        )
+        y = copy_array(y, xp=self.xp)
+        return y, self.xp.zeros(len(y), device=get_device(y))
 
 
 class CompositeTransform(BaseTransform):
